@@ -56,7 +56,7 @@ fn fast_gnp_random_graph_directed(
     let mut edges = vec![];
     while v < num_nodes {
         let lr: f64 = (1.0_f64 - rng.gen::<f64>()).ln();
-        w = w + 1 + ((lr / lp) as i32);
+        w = w.saturating_add(1).saturating_add((lr / lp) as i32);
         if v == w {
             w += 1;
         }
@@ -92,7 +92,7 @@ fn fast_gnp_random_graph_undirected(
     let mut edges = vec![];
     while v < num_nodes {
         let lr: f64 = (1.0_f64 - rng.gen::<f64>()).ln();
-        w = w + 1 + ((lr / lp) as i32);
+        w = w.saturating_add(1).saturating_add((lr / lp) as i32);
         while w >= v && v < num_nodes {
             w -= v;
             v += 1;
